@@ -121,6 +121,17 @@ CHECKS = {
    note=NOTE_COMMON+" Adjointness is derived from (a)+(b)+C02 symmetry+C09 transposes (mathematics); for gridding != 'same' the extra factor is the volume-averaging pair of C15; discretize's edge inner-product derivative is used as diag(u)@A (checked numerically per call).",
    technique="symbolic execution of jvec/jtvec on a real Simulation with an uninterpreted solver + SMT validity of polynomial identities; adjoint/FD replay on the real package",
    ref="DESIGN.md §6 C08"),
+ 'C12': dict(
+   text="Differential symbolic execution on a real (shadow) Simulation: every operation sequence up to length 2 (thorough 3) over "
+        "{compute, misfit, gradient, jvec, jtvec, get_efield, clean(computed|keepresults|all), copy, copy(results), "
+        "to_dict/from_dict, model update + clean, copy-then-mutate-the-copy, to_file hand-over} is executed with symbolic data, "
+        "model and vectors and with emg3d.solve as ONE uninterpreted function of (model values, source-field values, tolerance); "
+        "afterwards z3 decides, entry by entry, that synthetic data, misfit and gradient equal those of a freshly built "
+        "simulation sharing the same uninterpreted function (so stale caches, aliasing between copies and a wrong tolerance "
+        "hand-over are all visible for EVERY numeric content); copies must carry the computed state.",
+   note=NOTE_COMMON+" Histories are enumerated (246 quick / ~1600 thorough), the numeric content is symbolic; exact-solve idealisation (independent of initial guess); real file I/O and file-based execution are outside (to_file is modelled by its _what_to_file/to_dict hand-over).",
+   technique="differential symbolic execution of operation histories with an uninterpreted solver function + SMT validity of result equalities; replay of failing histories on the real package",
+   ref="DESIGN.md §6 C12"),
  'C05': dict(
    text="Bounded symbolic execution with the grid shape as z3 integers: MGParameters._max_level, _current_sc_dir, _current_lr_dir, "
         "smoothing dispatch, multigrid recursion and _terminate run with numerics stubbed; the explorer forks on the code's "
